@@ -39,11 +39,11 @@ func (s *StreamSelectPlanner) Process(ctx *shared.PlannerContext) (sql.ISelect, 
 			break
 		case "=~":
 			valClause = sql.Eq(&sqlMatch{
-				col: sql.NewRawObject("val"), pattern: s.Values[i]}, sql.NewIntVal(1))
+				col: sql.NewRawObject("val"), pattern: anchoredRe(s.Values[i])}, sql.NewIntVal(1))
 			break
 		case "!~":
 			valClause = sql.Eq(&sqlMatch{
-				col: sql.NewRawObject("val"), pattern: s.Values[i]}, sql.NewIntVal(0))
+				col: sql.NewRawObject("val"), pattern: anchoredRe(s.Values[i])}, sql.NewIntVal(0))
 			break
 		default:
 			return nil, &shared.NotSupportedError{
@@ -64,6 +64,12 @@ func (s *StreamSelectPlanner) Process(ctx *shared.PlannerContext) (sql.ISelect, 
 		GroupBy(sql.NewRawObject("fingerprint")).
 		AndHaving(sql.Eq(&SqlBitSetAnd{clauses}, sql.NewIntVal((1<<len(clauses))-1)))
 	return fpRequest, nil
+}
+
+// anchoredRe makes match() test the whole label value, as label matchers do (match() alone searches for the
+// pattern anywhere in the value).
+func anchoredRe(re string) string {
+	return "^(?:" + re + ")$"
 }
 
 type SqlBitSetAnd struct {
